@@ -411,7 +411,13 @@ fn coerce_argument_value(
                 let object: HashMap<_, _> = object.iter().map(|(k, v)| (k, v)).collect();
                 let mut coerced_object = JsonMap::new();
                 for (field_name, field_def) in &ty_def.fields {
-                    if let Some(field_value) = object.get(field_name) {
+                    // A variable without a runtime value means the field is not provided
+                    let provided = object.get(field_name).filter(|field_value| {
+                        field_value
+                            .as_variable()
+                            .is_none_or(|var| ctx.variable_values.contains_key(var.as_str()))
+                    });
+                    if let Some(field_value) = provided {
                         let coerced_value = coerce_argument_value(
                             ctx,
                             path,
